@@ -77,8 +77,8 @@ class Lock:
 def build_translator():
     d = os.path.join(VERIF, "translator")
     binp = os.path.join(d, "bin", "translator")
-    src = os.path.join(d, "main.go")
-    if not os.path.exists(binp) or os.path.getmtime(binp) < os.path.getmtime(src):
+    newest = max(os.path.getmtime(os.path.join(d, f)) for f in os.listdir(d) if f.endswith(".go"))
+    if not os.path.exists(binp) or os.path.getmtime(binp) < newest:
         os.makedirs(os.path.dirname(binp), exist_ok=True)
         sh(["go", "build", "-o", binp, "."], cwd=d, env=GOENV, check=True)
     return binp
